@@ -40,26 +40,7 @@ type ropt struct {
 
 // resolverOptionSets: named presets of resolve.ResolverOptions (the resolver-side option sets an
 // integrator chooses from) plus "rand", whose bits are drawn per laboratory.
-// extFwd adds the presets that forward subgraph "extensions" (c08e -extfwd 1): two recorded findings live there
-// (KNOWN_FINDINGS keys forwarded-extensions-key-order, extension-forwarding-order), so tools/props/c08e.py switches
-// them on only when those keys are listed.
-var extFwd bool
-
 func resolverOptionSets() []ropt {
-	sets := baseResolverOptionSets()
-	if extFwd {
-		return sets
-	}
-	var out []ropt
-	for _, s := range sets {
-		if !strings.HasPrefix(s.name, "custom-ext") {
-			out = append(out, s)
-		}
-	}
-	return out
-}
-
-func baseResolverOptionSets() []ropt {
 	apollo := resolve.ResolvableOptions{ApolloCompatibilityValueCompletionInExtensions: true, ApolloCompatibilitySuppressFetchErrors: true}
 	return []ropt{
 		{"default", 2, resolve.ResolverOptions{}},
@@ -76,8 +57,9 @@ func baseResolverOptionSets() []ropt {
 			SubgraphErrorPropagationMode: resolve.SubgraphErrorPropagationModeWrapped, OmitSubgraphErrorExtensions: true}},
 		{"validate-external", 1, resolve.ResolverOptions{PropagateSubgraphErrors: true, ValidateRequiredExternalFields: true,
 			SubgraphErrorPropagationMode: resolve.SubgraphErrorPropagationModePassThrough}},
-		// forwarding of subgraph "extensions" members to the client (first_write / last_write are defined over
-		// the order in which responses are MERGED, i.e. the completion order; see KNOWN_FINDINGS key extension-forwarding-order)
+		// forwarding of subgraph "extensions" members to the client: first_write / last_write are defined over the order
+		// in which responses are MERGED, i.e. the completion order (KNOWN_FINDINGS key extension-forwarding-order: only a
+		// differing VALUE of a key that two fetches in flight together returned; anything else, e.g. the key order, is a violation)
 		{"custom-ext", 1, resolve.ResolverOptions{AllowCustomExtensionProperties: true}},
 		{"custom-ext-last", 1, resolve.ResolverOptions{AllowCustomExtensionProperties: true,
 			ResolvableOptions: resolve.ResolvableOptions{ExtensionForwardingAlgorithm: resolve.ExtensionForwardingAlgorithmLastWrite}}},
@@ -348,6 +330,48 @@ func diffCanon(a, b [][2]string) string {
 	return ""
 }
 
+// forwardedValueConflict: the two responses differ ONLY in the value of forwarded extension keys that at least two
+// of the concurrently held fetches returned (same members in the same order everywhere, the same extension keys in the
+// same order).  Returns those keys ("" otherwise: any other difference is not the recorded finding).
+func forwardedValueConflict(a, b [][2]string, providers map[string]int) string {
+	if len(a) != len(b) {
+		return ""
+	}
+	var ea, eb string
+	for i := range a {
+		if a[i][0] != b[i][0] {
+			return ""
+		}
+		if a[i][0] == "extensions" {
+			ea, eb = a[i][1], b[i][1]
+			continue
+		}
+		if a[i][1] != b[i][1] {
+			return ""
+		}
+	}
+	ja, err1 := fedlab.ParseJSON([]byte(ea))
+	jb, err2 := fedlab.ParseJSON([]byte(eb))
+	if err1 != nil || err2 != nil || ja.Kind != fedlab.JObj || jb.Kind != fedlab.JObj || len(ja.Members) != len(jb.Members) {
+		return ""
+	}
+	var keys []string
+	for i := range ja.Members {
+		ma, mb := ja.Members[i], jb.Members[i]
+		if ma.Key != mb.Key {
+			return ""
+		}
+		if ma.Val.String() == mb.Val.String() {
+			continue
+		}
+		if providers[ma.Key] < 2 {
+			return ""
+		}
+		keys = append(keys, ma.Key)
+	}
+	return strings.Join(keys, ",")
+}
+
 // ---------------------------------------------------------------- the fault phase of one case
 
 // faultSpec pins the fault laboratory (corpus lines, replays); the zero value derives everything.
@@ -478,6 +502,9 @@ func (e *env) faultMix(c *fedlab.Case, flab *fedlab.Lab, roptName string, o *out
 				}
 			}
 		}
+		if mode == "any" && i == 0 && strings.HasPrefix(roptName, "custom-ext") {
+			kind = fWithExtensions // a forwarding preset is only exercised by answers that carry extensions
+		}
 		want[t] = kind
 		drawn = append(drawn, kind)
 	}
@@ -557,8 +584,24 @@ func (e *env) faultMix(c *fedlab.Case, flab *fedlab.Lab, roptName string, o *out
 		}
 		o.Stats["fault_order_comparisons"]++
 		if d := diffCanon(ref.canon, r.canon); d != "" {
-			viol("response_order_independent/faults", "resolver options %s, faults %s: the response depends on the completion order: %s || order A: %s || order B: %s",
-				roptName, faultsTxt, d, ref.order, r.order)
+			mark := ""
+			if strings.HasPrefix(roptName, "custom-ext") {
+				// providers of a forwarded extension key: the concurrently held requests answered with_extensions
+				prov := map[string]int{}
+				amu.Lock()
+				for k, kd := range applied {
+					if kd == fWithExtensions {
+						prov["served_by"]++
+						prov[strings.SplitN(k, "|", 2)[0]]++
+					}
+				}
+				amu.Unlock()
+				if ks := forwardedValueConflict(ref.canon, r.canon, prov); ks != "" {
+					mark = " [forwarded-extension-value-conflict keys=" + ks + "]"
+				}
+			}
+			viol("response_order_independent/faults", "resolver options %s, faults %s: the response depends on the completion order%s: %s || order A: %s || order B: %s",
+				roptName, faultsTxt, mark, d, ref.order, r.order)
 		}
 		for k := range r.keys {
 			if ref.keys[k] == 0 {
@@ -575,7 +618,11 @@ func (e *env) faultMix(c *fedlab.Case, flab *fedlab.Lab, roptName string, o *out
 	for _, p := range perms {
 		run(append(append([]string(nil), cs.prefix...), p...), nil)
 	}
-	nRand := 1
+	// seeded random orders on top of the permutations: quick 1 for the no-data mix (0 for the others), thorough 6
+	nRand := 0
+	if mode == "nodata" || mode == "pinned" {
+		nRand = 1
+	}
 	if e.cfg.maxDFS > 100 {
 		nRand = 6
 	}
